@@ -512,6 +512,7 @@ func TestC20(t *testing.T) {
 		}
 		run.times[fm.name] = time.Since(t0).Seconds()
 	}
+	c20CapacityProbe(run)
 	st.DistinctNontrivial = len(run.nontrivial)
 	var conf []string
 	for _, id := range c20KnownIDs {
